@@ -225,7 +225,7 @@ ini_buf_gen(const ini_p ini, uint8_t *buf, const size_t buf_size,
 	for (i = 0, off = 0; i < ini->lines_count; i ++) {
 		if (NULL == ini->lines[i])
 			continue;
-		if ((ini->lines[i]->data_size + 2) > buf_size) {
+		if ((ini->lines[i]->data_size + 2) > (buf_size - off)) {
 			error = -1;
 			break;
 		}
@@ -372,7 +372,7 @@ ini_sect_val_find(const ini_p ini, const size_t sect_off,
 
 	/* Look for value. */
 	while (0 == ini_sect_val_enum(ini, sect_off, &i, &name, &name_size, NULL, NULL)) {
-		if (0 == mem_cmpin(name, name_size, val_name, val_name_size))
+		if (0 == mem_cmpn(name, name_size, val_name, val_name_size))
 			return (i); /* Found! */
 		i ++;
 	}
